@@ -24,6 +24,16 @@ def build(c):
         x0, y0 = cx + c["dx"] * 30000.0, cy + c["dy"] * 30000.0
         dst = GeoBox.from_bbox(BoundingBox(x0, y0, x0 + n * px, y0 + n * px, f"epsg:{d}"), resolution=px, tight=True)
         return src, dst
+    if c["pair"].endswith("cap"):
+        from affine import Affine
+
+        s, d = c["pair"][:-3].split(">")
+        south = d == "3031"
+        off = {0: 0.0, 1: 35000.0, 2: 155000.0}[c["dx"]]
+        dst = GeoBox((80, 80), Affine(10000.0, 0, -400000.0 + off, 0, -10000.0, 400000.0 + off), f"epsg:{d}")
+        hi = 90 - c["dy"]
+        src = GeoBox.from_bbox((-180, -hi, 180, -80) if south else (-180, 80, 180, hi), "epsg:4326", shape=(5 * (hi - 80), 360), tight=True)
+        return src, dst
     if c["pair"].endswith("pole"):
         from affine import Affine
 
@@ -124,6 +134,19 @@ def bulge_tags(src, dst, pad, roi_src):
     tags = []
     hs, ws = src.shape
     hd, wd = dst.shape
+    if src.crs.geographic and not dst.crs.geographic:
+        # environment fact for C03-K3 / K4: a pole of the lon/lat source lies inside the destination image (at its very centre: K4)
+        import pyproj
+
+        tr = pyproj.Transformer.from_crs(4326, dst.crs.epsg, always_xy=True)
+        for lat in (90.0, -90.0):
+            x, y = tr.transform(0.0, lat)
+            if math.isfinite(x) and math.isfinite(y):
+                q, r = (~dst.affine) * (x, y)
+                if 0 < q < wd and 0 < r < hd:
+                    tags.append("dst_contains_a_pole_of_the_geographic_source")
+                    if abs(q - wd / 2) < 1e-6 and abs(r - hd / 2) < 1e-6:
+                        tags.append("dst_centre_is_the_pole")
     back = _pix_map(dst, src)
     sparse, dense = _envelope(back, (0, hd, 0, wd), 5), _envelope(back, (0, hd, 0, wd), 1025)
     if sparse and dense and not _covers(_pixel_box(sparse, pad, ws, hs), _pixel_box(dense, 0, ws, hs)):
@@ -156,7 +179,11 @@ def execute(c):
             # by pair and axis-order flag; planning must get the x,y-ordered ones whatever was requested before)
             src.crs.transformer_to_crs(dst.crs, always_xy=False)
             dst.crs.transformer_to_crs(src.crs, always_xy=False)
-        rr = compute_reproject_roi(src, dst, **kw)
+        try:
+            rr = compute_reproject_roi(src, dst, **kw)
+        except Exception:
+            ev["tags"] = bulge_tags(src, dst, c["pad"][0] if c["pad"] else 1, [0, 0, 0, 0])
+            raise
         ev["paste_ok"] = bool(rr.paste_ok)
         ev["o"] = {"roi_src": roi4(rr.roi_src), "roi_dst": roi4(rr.roi_dst), "shrink": int(rr.read_shrink) if float(rr.read_shrink).is_integer() else -1,
                    "scale64": int(round(rr.scale * 64))}
@@ -174,8 +201,8 @@ def run_cross(ctx):
     res, cases = ctx.model_check("warp/CrossGen.tla", "CrossGen.cfg", emit=True, timeout=600)
     cases.sort(key=lambda c: json.dumps(c, sort_keys=True))
     ctx.extra["cross_crs_cases_total"] = len(cases)
-    big = [c for c in cases if c["pair"].endswith(("big", "polar", "pole"))]
-    cases = ctx.subsample([c for c in cases if not c["pair"].endswith(("big", "polar", "pole"))], 600 if ctx.quick() else 10 ** 6) + big
+    big = [c for c in cases if c["pair"].endswith(("big", "polar", "pole", "cap"))]
+    cases = ctx.subsample([c for c in cases if not c["pair"].endswith(("big", "polar", "pole", "cap"))], 600 if ctx.quick() else 10 ** 6) + big
     events = ctx.pmap(execute, cases)
     verdicts = _validate(ctx, events)
     for ev, v in zip(events, verdicts):
